@@ -72,6 +72,38 @@ impl Script for C10Script {
     }
 }
 
+/// A retry policy that sticks to the node: a broken connection is answered with
+/// RetrySameTarget, anything else is not retried. The retries are not bounded in any way
+/// that matters (100000): until the pool has noticed that a connection is dead, same-node
+/// retries are handed that very connection again and fail at once - dozens of times within
+/// one poll of the request's task - and only Tokio's cooperative budget makes the task
+/// yield so that the pool gets to remove it. (A first version with a bound of 50 failed on
+/// the unchanged tree in a quarter of the runs: how often a policy must insist is not part
+/// of the property.)
+#[derive(Debug)]
+struct StickyRetry;
+struct StickySession(u32);
+
+impl scylla::policies::retry::RetryPolicy for StickyRetry {
+    fn new_session(&self) -> Box<dyn scylla::policies::retry::RetrySession> {
+        Box::new(StickySession(0))
+    }
+}
+
+impl scylla::policies::retry::RetrySession for StickySession {
+    fn decide_should_retry(&mut self, info: scylla::policies::retry::RequestInfo) -> scylla::policies::retry::RetryDecision {
+        use scylla::errors::RequestAttemptError;
+        if matches!(info.error, RequestAttemptError::BrokenConnectionError(_)) && info.is_idempotent && self.0 < 100_000 {
+            self.0 += 1;
+            return scylla::policies::retry::RetryDecision::RetrySameTarget(None);
+        }
+        scylla::policies::retry::RetryDecision::DontRetry
+    }
+    fn reset(&mut self) {
+        self.0 = 0;
+    }
+}
+
 #[derive(Clone, Copy, Debug, PartialEq, Eq)]
 enum Kind {
     Fin,
@@ -766,6 +798,88 @@ async fn main(plan: Plan) -> Outcome {
                 }
                 world::sleep_ns(100 * MS).await;
             }
+        }
+    }
+    // (e3) Requests in flight on a connection that is reset, run with a retry policy that
+    // sticks to the node (RetrySameTarget on a broken connection, as often as it takes): the
+    // node is healthy otherwise - other pool connections live on, new ones are accepted -,
+    // so every one of them succeeds through another connection of the same node.
+    if plan.enumerated.is_none() && out.violations.is_empty() && tape::chance("c10:sticky_phase", 1, 2) {
+        let victim: Option<usize> = {
+            let w = world::world();
+            (0..w.cluster.nodes.len()).find(|n| {
+                w.live_conns_of(*n)
+                    .into_iter()
+                    .filter(|c| w.conns[*c].cql.started && w.conns[*c].cql.registered.is_empty() && !w.conns[*c].s2c_stalled)
+                    .count()
+                    >= 2
+            })
+        };
+        if let Some(node) = victim {
+            let host = uuid::Uuid::from_bytes(world::world().cluster.nodes[node].host_id);
+            let profile = scylla::client::execution_profile::ExecutionProfile::builder()
+                .request_timeout(None)
+                .retry_policy(Arc::new(StickyRetry))
+                .load_balancing_policy(scylla::policies::load_balancing::SingleTargetLoadBalancingPolicy::new(
+                    scylla::policies::load_balancing::NodeIdentifier::HostId(host),
+                    None,
+                ))
+                .build()
+                .into_handle();
+            let mut handles = Vec::new();
+            let mut markers = Vec::new();
+            for _ in 0..8 {
+                idx += 1;
+                let m = idx * 16 + F_HOLD;
+                markers.push(m);
+                let session = session.clone();
+                let profile = profile.clone();
+                handles.push(tokio::spawn(async move {
+                    let mut st = Statement::new(client::q_marker(m));
+                    st.set_is_idempotent(true);
+                    st.set_execution_profile_handle(Some(profile));
+                    (m, tokio::time::timeout(Duration::from_secs(120), session.query_unpaged(st, ())).await)
+                }));
+            }
+            world::sleep_ns(plan.hold / 3).await;
+            // Reset the connection that carries the first of them.
+            let conn = {
+                let mut w = world::world();
+                let mut s = w.script.take().unwrap();
+                let c = markers.iter().find_map(|m| s.as_any().downcast_mut::<C10Script>().unwrap().attempts.get(m).and_then(|v| v.first().copied()));
+                w.script = Some(s);
+                c
+            };
+            if let Some(conn) = conn {
+                let mut w = world::world();
+                w.fault(Fault::Rst);
+                w.log(&format!("sticky_phase_reset node={node} conn={conn}"));
+                w.srv_close_now(conn, true);
+                w.probe("reset_under_sticky_retry_policy");
+            }
+            for h in handles {
+                match h.await {
+                    Ok((m, Ok(Ok(qr)))) => {
+                        if let Err(e) = client::check_marker_rows(qr, m) {
+                            out.violation("c10.attribution", e);
+                        }
+                    }
+                    Ok((m, Ok(Err(e)))) => {
+                        if conn.is_some() {
+                            out.violation(
+                                "c10.same_node_retry_failed",
+                                format!(
+                                    "request marker {m}, in flight on node {node} when ONE of its pool connections was reset, failed ({}) although its retry policy retries on the same node and the node's other connections are healthy",
+                                    client::short_err(&e)
+                                ),
+                            );
+                        }
+                    }
+                    Ok((m, Err(_))) => out.violation("c10.hang", format!("request marker {m} (sticky retry policy) did not return within 120 virtual s after one pool connection of node {node} was reset")),
+                    Err(e) => out.violation("c10.client_task", format!("{e}")),
+                }
+            }
+            world::sleep_ns(12 * SEC).await;
         }
     }
     // (c) a non-idempotent request that reached a node is never sent again.
